@@ -870,7 +870,7 @@ func c35Exec(c *Case) {
 			}
 			p := ptrs[k]
 			cur := seg.VerifC35Region(p.off, p.off+uint64(p.length))
-			if c35Huge(cur) {
+			if c35Huge(c35OwnKind(p.cols), p.pointer.Schema(), cur) {
 				c.Stat("guard-huge-length")
 				c.Out("guard", "guard")
 				continue
@@ -917,7 +917,7 @@ func c35Exec(c *Case) {
 			isPtr := rows == 0 && hasOff && !isLog
 			lo, hi, valid := c35PointerRange(offS, lenS, hasLen, size)
 			dec := "na"
-			if isPtr && valid && c35Huge(seg.VerifC35Region(uint64(lo), uint64(hi))) {
+			if isPtr && valid && c35Huge(c35OwnKind(f[1]), b.Schema(), seg.VerifC35Region(uint64(lo), uint64(hi))) {
 				c.Stat("guard-huge-length")
 				c.Out("guard", "guard")
 				b.Release()
@@ -996,21 +996,50 @@ func c35Exec(c *Case) {
 	}
 }
 
-// c35Huge: would arrow-go's message reader start by allocating more than 64 MiB for the first
-// message of these bytes (length prefix read from garbage)? Such reads take seconds to minutes in
-// the sandbox; the harness skips them (line "guard" on both sides) — they are never compared.
-func c35Huge(region []byte) bool {
-	if len(region) < 4 {
-		return false
+// c35Huge: would arrow-go's stream reader, fed these bytes the way the storage layout prescribes,
+// try to allocate more than 64 MiB for a message (metadata length or flatbuffer bodyLength read
+// from garbage)? arrow-go allocates before it reads, a multi-gigabyte request takes seconds to
+// minutes here and a larger one is a process-fatal "out of memory" that no recover() can catch —
+// in the harness's own decode attempt as much as inside ResolveShmBatch. Such regions are skipped
+// (line "guard" on both sides) and never compared. The walk uses the same framing rule as the
+// reader: [continuation] length, metadata, body.
+func c35Huge(kind string, schema *arrow.Schema, region []byte) bool {
+	const limit = 64 << 20
+	stream := region
+	if kind == "top" {
+		so := c35SchemaOnly(schema)
+		stream = append(append([]byte{}, so[:len(so)-8]...), region...)
 	}
-	l := binary.LittleEndian.Uint32(region[0:4])
-	if l == 0xFFFFFFFF {
-		if len(region) < 8 {
+	pos := 0
+	for msgs := 0; msgs < 64 && pos+4 <= len(stream); msgs++ {
+		p := pos
+		l := binary.LittleEndian.Uint32(stream[p : p+4])
+		if l == 0xFFFFFFFF {
+			p += 4
+			if p+4 > len(stream) {
+				return false
+			}
+			l = binary.LittleEndian.Uint32(stream[p : p+4])
+		}
+		if int32(l) > limit {
+			return true
+		}
+		if int32(l) <= 0 {
+			return false // EOS or an invalid length: the reader stops here
+		}
+		n, err := vgirpc.VerifC35SkipOneIPCMessage(stream[pos:])
+		if err != nil {
+			return false // truncated metadata: the reader fails on EOF before any body allocation
+		}
+		if n < 0 || n > len(stream)-pos+limit {
+			return true
+		}
+		if n > len(stream)-pos || n == 0 {
 			return false
 		}
-		l = binary.LittleEndian.Uint32(region[4:8])
+		pos += n
 	}
-	return int32(l) > 64<<20
+	return false
 }
 
 // c35CheckSlot: a written batch must occupy exactly one table entry inside the data area.
